@@ -25,13 +25,6 @@ var setConsumers = map[string]int{
 	modPath + "/internal/lexergen/rang3.Normalize": 0,
 }
 
-// enclosingFuncs maps every node position to its innermost enclosing FuncDecl/FuncLit.
-type funcScope struct {
-	pk   *packages.Package
-	decl *ast.FuncDecl
-	node ast.Node // *ast.FuncDecl or innermost *ast.FuncLit
-}
-
 func ruleDET1(c *Ctx) {
 	const rule = "DET-1"
 	c.floor(rule, 10)
@@ -908,18 +901,40 @@ func checkPackageNameSource(c *Ctx, rule string) {
 	}
 	info := pk.TypesInfo
 	consts := genFileConsts(p)
-	// the condition selecting the file whose package clause is read
+	// what is known about the entry's name where it is chosen as the package-name source
 	excluded := map[*types.Const]bool{}
+	var chosen ast.Node
 	ast.Inspect(fd.Body, func(n ast.Node) bool {
-		be, ok := n.(*ast.BinaryExpr)
-		if !ok || be.Op != token.NEQ {
+		as, ok := n.(*ast.AssignStmt)
+		if !ok || len(as.Lhs) != 1 || len(as.Rhs) != 1 {
 			return true
 		}
-		if k, ok := usesObj(info, be.Y).(*types.Const); ok && strings.HasSuffix(exprString(be.X), ".Name()") {
-			excluded[k] = true
+		if call, ok := as.Rhs[0].(*ast.CallExpr); ok && fullName(calleeFunc(info, call)) == "path/filepath.Join" && as.Tok == token.ASSIGN {
+			chosen = as
 		}
 		return true
 	})
+	if chosen == nil {
+		c.unres(rule, construct, p.Pos(fd.Pos()), "the statement choosing the package-name source was not found")
+		return
+	}
+	defs := localDefs(info, fd.Body)
+	isEntryName := func(e ast.Expr) bool {
+		e = resolveVia(info, defs, e)
+		return strings.HasSuffix(exprString(e), ".Name()")
+	}
+	for _, f := range pathConds(info, parents(fd), chosen) {
+		l, op, r, ok := cmpFact(f.e, !f.neg)
+		if !ok || op != token.NEQ {
+			continue
+		}
+		if k, ok := usesObj(info, r).(*types.Const); ok && isEntryName(l) {
+			excluded[k] = true
+		}
+		if k, ok := usesObj(info, l).(*types.Const); ok && isEntryName(r) {
+			excluded[k] = true
+		}
+	}
 	var missing []string
 	for _, k := range consts {
 		if !excluded[k] {
@@ -974,6 +989,65 @@ func ruleEMIT1(c *Ctx, rule string) {
 	}
 }
 
+// stageSequence returns the generation stages in the order fd runs them, for the two forms
+// `return a() && b() && ...` and `for _, f := range []func() bool{a, b, ...} { if !f() { return false } }`.
+func stageSequence(pk *packages.Package, fd *ast.FuncDecl) []string {
+	info := pk.TypesInfo
+	var seq []string
+	ast.Inspect(fd.Body, func(n ast.Node) bool {
+		switch x := n.(type) {
+		case *ast.ReturnStmt:
+			if len(x.Results) == 1 && len(seq) == 0 {
+				cj := conjuncts(x.Results[0])
+				if len(cj) > 1 {
+					for _, e := range cj {
+						if call, ok := e.(*ast.CallExpr); ok {
+							if fn := calleeFunc(info, call); fn != nil && fn.Pkg() == pk.Types {
+								seq = append(seq, fn.Name())
+							}
+						}
+					}
+				}
+			}
+		case *ast.RangeStmt:
+			// range over a literal (or a local bound to one) of method values, failing fast
+			src := resolveLocalIn(info, fd, x.X)
+			cl, ok := ast.Unparen(src).(*ast.CompositeLit)
+			if !ok || x.Value == nil {
+				return true
+			}
+			failFast := false
+			for _, s := range x.Body.List {
+				if ifs, ok := s.(*ast.IfStmt); ok {
+					if u, ok := ifs.Cond.(*ast.UnaryExpr); ok && u.Op == token.NOT {
+						if call, ok := u.X.(*ast.CallExpr); ok && usesObj(info, call.Fun) == usesObj(info, x.Value) && len(ifs.Body.List) == 1 {
+							if rs, ok := ifs.Body.List[0].(*ast.ReturnStmt); ok && len(rs.Results) == 1 && exprString(rs.Results[0]) == "false" {
+								failFast = true
+							}
+						}
+					}
+				}
+			}
+			if !failFast {
+				return true
+			}
+			var names []string
+			for _, el := range cl.Elts {
+				if sel, ok := el.(*ast.SelectorExpr); ok {
+					if fn, ok := info.Uses[sel.Sel].(*types.Func); ok && fn.Pkg() == pk.Types {
+						names = append(names, fn.Name())
+					}
+				}
+			}
+			if len(names) == len(cl.Elts) && len(seq) == 0 {
+				seq = names
+			}
+		}
+		return true
+	})
+	return seq
+}
+
 // stageCalls finds calls to method `name` (of codegen.context) inside fd.
 func stageCalls(pk *packages.Package, fd *ast.FuncDecl, name string) []*ast.CallExpr {
 	return findCalls(pk.TypesInfo, fd.Body, false, func(fn *types.Func, _ *ast.CallExpr) bool {
@@ -985,6 +1059,23 @@ func stageCalls(pk *packages.Package, fd *ast.FuncDecl, name string) []*ast.Call
 func checkStageOrder(c *Ctx, rule string, pk *packages.Package, fd *ast.FuncDecl, before, after, why string) bool {
 	p := c.Prog
 	construct := fmt.Sprintf("%s/%s-before-%s", funcKey(pk, fd), before, after)
+	if seq := stageSequence(pk, fd); len(seq) > 0 {
+		ib, ia := -1, -1
+		for i, s := range seq {
+			if s == before && ib == -1 {
+				ib = i
+			}
+			if s == after && ia == -1 {
+				ia = i
+			}
+		}
+		if ib < 0 || ia < 0 {
+			c.unres(rule, construct, p.Pos(fd.Pos()), "stage %s or %s is not among the stages %v run by %s", before, after, seq, fd.Name.Name)
+			return false
+		}
+		return c.check(ib < ia, rule, construct, p.Pos(fd.Pos()), fmt.Sprintf("%s runs before %s (stages: %s)", before, after, strings.Join(seq, ", ")),
+			fmt.Sprintf("%s can run before %s: %s", after, before, why))
+	}
 	bs := stageCalls(pk, fd, before)
 	as := stageCalls(pk, fd, after)
 	if len(as) == 0 || len(bs) == 0 {
@@ -993,24 +1084,14 @@ func checkStageOrder(c *Ctx, rule string, pk *packages.Package, fd *ast.FuncDecl
 	}
 	g := p.CFG(pk, fd)
 	for _, a := range as {
-		ok := false
-		ap, _ := cfgLocate(g, a)
-		for _, b := range bs {
-			bp, found := cfgLocate(g, b)
-			if found && bp == ap && b.End() <= a.Pos() && shortCircuitOrdered(ap.b.Nodes[ap.i], b, a) {
-				ok = true
-			}
-		}
-		if !ok {
-			ok = mustPassBefore(g, a, func(n ast.Node) bool {
-				for _, b := range bs {
-					if containsNode(n, b) && !containsNode(n, a) {
-						return true
-					}
+		ok := mustPassBefore(g, a, func(n ast.Node) bool {
+			for _, b := range bs {
+				if containsNode(n, b) && !containsNode(n, a) {
+					return true
 				}
-				return false
-			})
-		}
+			}
+			return false
+		})
 		if !ok {
 			c.bad(rule, construct, p.Pos(a.Pos()), "%s can run before %s: %s", after, before, why)
 			return false
